@@ -219,18 +219,16 @@ func supervise(env *core.Env) {
 }
 
 type limited struct {
-	w    io.Writer
-	left int
+	w    *bytes.Buffer
+	left int // the number of bytes kept: the END of the stream is what matters (a panic is the last thing printed)
 }
 
 func (l *limited) Write(p []byte) (int, error) {
-	if l.left > 0 {
-		q := p
-		if len(q) > l.left {
-			q = q[:l.left]
-		}
-		_, _ = l.w.Write(q)
-		l.left -= len(q)
+	_, _ = l.w.Write(p)
+	if l.w.Len() > 2*l.left {
+		keep := append([]byte{}, l.w.Bytes()[l.w.Len()-l.left:]...)
+		l.w.Reset()
+		_, _ = l.w.Write(keep)
 	}
 	return len(p), nil
 }
